@@ -16,6 +16,7 @@ Hdr == Trace[1]
 
 TrDials == {Hdr.dials[i].name : i \in 1..Len(Hdr.dials)}
 TrAccepts == {Hdr.accepts[i].name : i \in 1..Len(Hdr.accepts)}
+TrAborts == {Hdr.dials[i].name : i \in {j \in 1..Len(Hdr.dials) : Hdr.dials[j].abort}}
 DRec(d) == Hdr.dials[CHOOSE i \in 1..Len(Hdr.dials) : Hdr.dials[i].name = d]
 ARec(a) == Hdr.accepts[CHOOSE i \in 1..Len(Hdr.accepts) : Hdr.accepts[i].name = a]
 TrDSide(d) == DRec(d).side
@@ -61,16 +62,29 @@ TDialAck    == IsEv("mux.dial.ack") /\ E.g \in Dials /\ DialAck(E.g) /\ Keep
 Strict == Hdr.strict
 PeerInWindowA(a) == \E d \in Dials : Sole(a, d) /\ dt[d] >= 0 /\ InWindow(a, d)
 PeerInWindowD(d) == \E a \in Accepts : Sole(a, d) /\ at[a] >= 0 /\ InWindow(a, d)
+\* the raw peer of an aborting dial: stream opened (abort.open), then closed without an id
+TAbortOpen  == IsEv("abort.open") /\ E.g \in AbortDials /\ DSide(E.g) = E.obj /\ DialOpen(E.g) /\ Keep
+TAbortClosed == IsEv("abort.closed") /\ E.g \in AbortDials
+                /\ \/ DialAbort(E.g) /\ Keep
+                   \/ Confirm(<<"abort.closed", E.g, 1>>)
 TRetDial    == IsEv("ret.dial") /\ E.g \in Dials /\ dpc[E.g] = "ret" /\ dres[E.g] = E.res /\ Same /\ Keep
                /\ ((Strict /\ PeerInWindowD(E.g)) => E.res = "ok")
 
-\* ---- getStream: the logged "existed" flag must agree with the model's slot map
+\* ---- getStream runs under the broker lock and is logged there: this is where the slot is looked
+\* up / created, for an Accept caller (g is the call) or for the Run loop of that side.  The logged
+\* "existed" flag must agree with the model's slot map.  mux.accept.slot / mux.run.slot, logged
+\* after the lock is released, only confirm.
 TGetStream  == IsEv("mux.getstream") /\ E.obj \in Sides /\ E.a \in Ids
-               /\ (E.b = 1) = HasSlot(E.obj, E.a) /\ Same /\ Keep
+               /\ (E.b = 1) = HasSlot(E.obj, E.a) /\ Keep
+               /\ IF E.g \in Accepts
+                  THEN AId(E.g) = E.a /\ ASide(E.g) = E.obj /\ AcceptSlot(E.g)
+                  ELSE rpc[E.obj] = "id" /\ DId(rcur[E.obj]) = E.a /\ RunSlot(E.obj)
 
 \* ---- accept
-TAcceptSlot == IsEv("mux.accept.slot") /\ E.g \in Accepts /\ AId(E.g) = E.a /\ ASide(E.g) = E.obj /\ AcceptSlot(E.g) /\ Keep
-TAcceptTook == IsEv("mux.accept.took") /\ E.g \in Accepts /\ AcceptTake(E.g) /\ Keep
+TAcceptSlot == IsEv("mux.accept.slot") /\ E.g \in Accepts /\ apc[E.g] = "wait" /\ Same /\ Keep
+TAcceptTook == IsEv("mux.accept.took") /\ E.g \in Accepts
+               /\ \/ AcceptTake(E.g) /\ Keep
+                  \/ Confirm(<<"mux.accept.took", E.g, 1>>)
                /\ (Exact => E.t <= adl[E.g])
 TAcceptClosed == IsEv("mux.accept.closed") /\ E.g \in Accepts
                  /\ \/ AcceptClose(E.g) /\ Keep
@@ -94,7 +108,8 @@ TRel ==
 \* ---- Run loop
 TRunStream == IsEv("mux.run.stream") /\ Keep /\ \E d \in Dials : RunStream(E.obj, d)
 TRunId     == IsEv("mux.run.id") /\ E.b = 1 /\ RunId(E.obj) /\ DId(rcur[E.obj]) = E.a /\ Keep
-TRunSlot   == IsEv("mux.run.slot") /\ RunSlot(E.obj) /\ DId(rcur[E.obj]) = E.a /\ Keep
+TRunIdFail == IsEv("mux.run.id") /\ E.b = 0 /\ RunIdFail(E.obj) /\ Keep
+TRunSlot   == IsEv("mux.run.slot") /\ rpc[E.obj] \in {"slot", "park"} /\ Same /\ Keep
 TRunPark   == IsEv("mux.run.park")
               /\ \/ /\ RunPark(E.obj) /\ DId(rcur[E.obj]) = E.a /\ Keep
                     /\ (E.b = 1) = (loc'[rcur[E.obj]] = "slot")
@@ -128,7 +143,11 @@ TNextId == IsEv("nextid") /\ NextId(E.obj) /\ nid'[E.obj] = E.a /\ Keep
 (***************************************************************************)
 Ahead ==
   /\ AtTime /\ UNCHANGED <<now, l>>
-  /\ \/ \* the Run loop read the id before the dialer logged having written it
+  /\ \/ \* the Run loop saw the stream closed before the aborting peer logged having closed it
+        /\ E.ev = "mux.run.id" /\ E.b = 0 /\ rpc[E.obj] = "stream" /\ rcur[E.obj] \in AbortDials
+        /\ dpc[rcur[E.obj]] = "opened"
+        /\ DialAbort(rcur[E.obj]) /\ pre' = pre \cup {<<"abort.closed", rcur[E.obj], 1>>}
+     \/ \* the Run loop read the id before the dialer logged having written it
         /\ E.ev = "mux.run.id" /\ E.b = 1 /\ rpc[E.obj] = "stream" /\ ~idw[rcur[E.obj]]
         /\ DialWrite(rcur[E.obj]) /\ pre' = pre \cup {<<"mux.dial.wrote", rcur[E.obj], 1>>}
      \/ \* the acceptor took the stream before the Run loop logged having parked it
@@ -136,6 +155,24 @@ Ahead ==
         /\ sch[ASide(E.g)][aslot[E.g]] = None
         /\ rpc[ASide(E.g)] = "slot" /\ rslot[ASide(E.g)] = aslot[E.g]
         /\ RunPark(ASide(E.g)) /\ pre' = pre \cup {<<"mux.run.park", ASide(E.g), 1>>}
+     \/ \* the Run loop could park because the acceptor (or an expiry handler) had already emptied
+        \* the slot's channel, which they have not logged yet
+        /\ E.ev = "mux.run.park" /\ E.b = 1 /\ rpc[E.obj] = "slot" /\ sch[E.obj][rslot[E.obj]] # None
+        /\ \/ \E a \in Accepts : /\ apc[a] = "wait" /\ ASide(a) = E.obj /\ aslot[a] = rslot[E.obj]
+                                  /\ AcceptTake(a) /\ pre' = pre \cup {<<"mux.accept.took", a, 1>>}
+           \/ \E d \in Dials : /\ tpc[d] = "woke" /\ TSide(d) = E.obj /\ tslot[d] = rslot[E.obj]
+                                /\ TWFinish(d) /\ pre' = pre \cup {<<"mux.tw.drain", E.obj, 1>>}
+     \/ \* the expiry handler found a stream that the Run loop has parked but not logged yet
+        /\ E.ev = "mux.tw.drain" /\ E.b = 1 /\ rpc[E.obj] = "slot" /\ sch[E.obj][rslot[E.obj]] = None
+        /\ \E d \in Dials : tpc[d] = "woke" /\ TSide(d) = E.obj /\ DId(d) = E.a /\ tslot[d] = rslot[E.obj]
+        /\ RunPark(E.obj) /\ pre' = pre \cup {<<"mux.run.park", E.obj, 1>>}
+     \/ \* the expiry handler found the channel empty because the acceptor took the stream and has
+        \* not logged that yet
+        /\ E.ev = "mux.tw.drain" /\ E.b = 0
+        /\ \E d \in Dials, a \in Accepts :
+             /\ tpc[d] = "woke" /\ TSide(d) = E.obj /\ DId(d) = E.a /\ sch[E.obj][tslot[d]] # None
+             /\ apc[a] = "wait" /\ ASide(a) = E.obj /\ aslot[a] = tslot[d]
+             /\ AcceptTake(a) /\ pre' = pre \cup {<<"mux.accept.took", a, 1>>}
      \/ \* the expiry goroutine saw doneCh closed before the acceptor logged having closed it
         /\ E.ev = "mux.tw.woke" /\ E.b = 0
         /\ \E a \in Accepts : /\ apc[a] = "took" /\ ASide(a) = E.obj /\ AId(a) = E.a
@@ -154,7 +191,7 @@ Ahead ==
 TraceNext ==
   \/ Advance
   \/ /\ AtTime /\ Consume /\ UNCHANGED now
-     /\ \/ TSkip \/ TCallDial \/ TDialOpened \/ TDialWrote \/ TDialAck \/ TRetDial \/ TGetStream
+     /\ \/ TSkip \/ TCallDial \/ TAbortOpen \/ TAbortClosed \/ TRunIdFail \/ TDialOpened \/ TDialWrote \/ TDialAck \/ TRetDial \/ TGetStream
         \/ TAcceptSlot \/ TAcceptTook \/ TAcceptClosed \/ TAcceptAck \/ TAcceptTimeout \/ TAcceptDeleted
         \/ TRetAccept \/ TRel \/ TRunStream \/ TRunId \/ TRunSlot \/ TRunPark
         \/ TTwWoke \/ TTwDrain \/ TXfer \/ TNextId
@@ -164,6 +201,8 @@ TraceNext ==
 TraceSpec == TraceInit /\ [][TraceNext]_tvars
 
 \* acceptance: the whole trace was consumed on some branch (high-water mark; -workers 1)
+\* every action taken ahead of its log line was confirmed by it in the end
+AllConfirmed == (l = Len(Trace) + 1) => pre = {}
 HighWater == TLCSet(1, IF l > TLCGet(1) THEN l ELSE TLCGet(1))
 TraceConstraint == HighWater
 TraceAccepted ==
